@@ -93,7 +93,15 @@ pub fn gen_general(src: &mut Src, tier: Tier, hay_q: u32, hay_t: u32, tweak: fn(
     let node = gen_pattern(src, &cfg);
     let pat = Printer::print(&node, fl.mode);
     let maxlen = if tier == Tier::Quick { hay_q } else { hay_t };
-    let hay = gen_hay(src, &cfg.alpha, maxlen);
+    let hay = if src.chance(2, 5) {
+        let mut h = witness_hay(src, &node, fl, &cfg.alpha, 3);
+        while h.chars().count() > (maxlen as usize + 8) {
+            h.pop();
+        }
+        h
+    } else {
+        gen_hay(src, &cfg.alpha, maxlen)
+    };
     let start = gen_start(src, &hay);
     General {
         case: Case { pat, flags: fl.text(), hay, hay16: vec![], start, x: json!(null) },
